@@ -1,9 +1,10 @@
 (* extraction of the C15 executable models; ExtrOcamlBasic only *)
 Require Extraction.
 Require Import ExtrOcamlBasic.
-Require Import Base EditDistance DictModel Fuzzy C15Suggest.
+Require Import Base EditDistance DictModel Fuzzy C15Suggest C15Automaton.
 Extraction Language OCaml.
 Extraction "../ocaml/gen/c15_model.ml" wf_u8 wf_min_alloc lev_fast spec_stream spec_stream_fast word_id normalized
   mut_extend fst_new mut_ops fst_ops merged_ops text_leb text_eqb
   fst_merged fst_fuzzy fst_admissible adj_sorted
-  score_suggestion order_suggestions suggest.
+  score_suggestion order_suggestions suggest
+  la_search la_run la_distance la_can_match.
